@@ -876,7 +876,8 @@ fn check_t2(scn: &Scenario, stats: &mut Stats) -> Vec<Violation> {
         return out;
     }
     // default mode shows base-file items only, and counts the others; --all-files shows all
-    let in_base = split_items.iter().filter(|k| k.0 == scn.world.base).count();
+    // (an item that belongs to no file at all is shown, not counted as "in another file")
+    let in_base = split_items.iter().filter(|k| k.0 == scn.world.base || k.0 == "<null>").count();
     let elsewhere = split_items.len() - in_base;
     for all in [false, true] {
         let flags: Vec<&str> = if all { vec!["--compact", "--no-color", "--all-files"] } else { vec!["--compact", "--no-color"] };
